@@ -34,7 +34,8 @@ Record env := mkEnv {
   e_validate : val -> option val;    (* None = TraitError, Some w = validated (possibly converted) value *)
   e_default : val;                   (* the trait's constant default value *)
   e_kind : tkind;
-  e_handlers : list handler          (* trait notifiers then object notifiers, in list order *)
+  e_handlers : list handler;         (* trait notifiers then object notifiers, in list order *)
+  e_store_original : bool            (* TRAIT_SETATTR_ORIGINAL_VALUE (Expression, AdaptsTo): store the assigned object, not the validated one *)
 }.
 
 Inductive op := Assign (v : val) | Read | Delete.     (* obj.x = v, obj.x, del obj.x *)
@@ -117,12 +118,15 @@ Section WithEnv.
             | TEvent =>                                (* setattr_event: nothing stored, old = Undefined *)
                 let '(cs, sk) := notify OUndefined w in (s, mkObs Ok s cs sk)
             | TNormal m =>
-                if is_nil (e_handlers E) then (Some w, mkObs Ok (Some w) [] [])     (* do_notifiers = 0 *)
+                (* new_value = (flags & TRAIT_SETATTR_ORIGINAL_VALUE) ? original_value : value  (l.2487) *)
+                let nv := if e_store_original E then v else w in
+                if is_nil (e_handlers E) then (Some nv, mkObs Ok (Some nv) [] [])     (* do_notifiers = 0 *)
                 else
                   let old := readable s in             (* dict value, or the default materialised as `old` *)
-                  let changed := match m with MNone => true | _ => negb (old =? w) end in
-                  let '(cs, sk) := if changed then notify (OVal old) w else ([], []) in
-                  (Some w, mkObs Ok (Some w) cs sk)
+                  (* `changed = (old_value != new_value)` (l.2517): identity of the object that will be stored *)
+                  let changed := match m with MNone => true | _ => negb (old =? nv) end in
+                  let '(cs, sk) := if changed then notify (OVal old) nv else ([], []) in
+                  (Some nv, mkObs Ok (Some nv) cs sk)
             end
         end
     end.
